@@ -4,13 +4,16 @@ For every enumerated case the real routine is executed as a woven in-memory copy
 label assignment (`ci[u] = mb + 1` / `m[u] = mb + 1` / `m[i] = j + 1` / `Mb[u] = mb + 1`) a monitor receives the label vector, the node,
 the target module and the routine's max_dq, and compares  "claimed gain" (2*max_dq/s for the plain routines and for
 community_louvain's modularity/potts objective, 2*max_dq for the signed ones - DESIGN Appendix A, gain lemma) with the exact change of the
-reference quality (checks/bounded/modq.py, written from the definition) between the labels before and after the move.  This is done on
-the first hierarchy level, where the working matrix is the input matrix.  End to end: Qref(returned partition) >= Qref(start) - 1e-10,
+reference quality (checks/bounded/modq.py, written from the definition) between the labels before and after the move.  On the first
+hierarchy level the working matrix is the input matrix and the labels are the routine's own vector; on deeper levels (input class
+'/level>=2') the monitor composes the super-node labels with the routine's composed label vector of the previous level (handed over at the
+head of the level loop) and evaluates the reference on the *input* network, which is exact by the aggregation lemma (Q of the aggregated
+network with super-node labels = Q of the input network with composed labels).  End to end: Qref(returned partition) >= Qref(start) - 1e-10,
 returned q >= Qref(start) - 1e-10, hierarchical q strictly increasing (returned list and recomputed values), and the output fed back as
 the start (real un-woven routine, seeded order) is not lowered.
 
-Violation keys:  <function>/<clause>[/hierarchy][/directed-W]
-  clauses  MOVE-claimed-gain-equals-exact-dQ, MOVE-accepted-move-raises-Q, POST-Q-not-below-start, POST-returned-q-not-below-start,
+Violation keys:  <function>/<clause>[/hierarchy | /level>=2][/directed-W  (after a first class: +directed-W)]
+  clauses  MOVE-claimed-gain-equals-exact-dQ[/level>=2], MOVE-accepted-move-raises-Q[/level>=2], POST-Q-not-below-start, POST-returned-q-not-below-start,
            POST-feedback-not-lower, POST-hierarchy-q-strictly-increasing, POST-hierarchy-Q-strictly-increasing,
            POST-hierarchy-first-level-not-below-singletons, RAISES-<Exception>
 """
